@@ -209,3 +209,81 @@ def c09_words(e):
     while want and not want[-1]:
         want.pop()
     return rendered == want
+
+
+# --- a Text measured, edited in place without changing its length, measured again (P) ------------------------------------------
+_EDIT_PAIRS = [("aaaa\nbbbb", "ccccccccc"), ("hello world", "hello\nworld"), ("ab cd", "中中 cd"), ("x y z", "xxyzz"),
+               ("one two", "onetwo ")]
+
+
+@symx("C09-text-measure-after-edit", timeout=600, kind="P", functions=["rich/text.py:Text.__rich_measure__", "rich/text.py:Text.plain"],
+      bounds="%d pairs of equally long strings (a, b): Text(a) is measured (or not), then changed in place to b - by assigning "
+             ".plain, or by right_crop(k) followed by append of b's last k characters for k in 1..3 - and measured again: the "
+             "measurement is that of a fresh Text(b), also when nested in a Panel.fit / Padding measured before and after; rendering "
+             "at the maximum does not wrap" % len(_EDIT_PAIRS))
+def c09_after_edit(e):
+    from rich.padding import Padding
+    a, b = _EDIT_PAIRS[int(e.mk("pair", 0, len(_EDIT_PAIRS) - 1))]
+    if e.mkbool("swap"):
+        a, b = b, a
+    how = int(e.mk("edit", 0, 3))
+    measured_first = bool(e.mkbool("measured_first"))
+    c = cat.console()
+    t = Text(a)
+    holder = Padding(t, (0, 1))
+    if measured_first:
+        Measurement.get(c, t, 200)
+        Measurement.get(c, holder, 200)
+    if how == 0:
+        t.plain = b
+    else:
+        k = how
+        if a[:len(a) - k] != b[:len(b) - k]:
+            t.plain = b[:len(b) - k] + a[len(a) - k:]
+        t.right_crop(k)
+        t.append(b[len(b) - k:])
+    if t.plain != b:
+        return False
+    fresh = Measurement.get(c, Text(b), 200)
+    got = Measurement.get(c, t, 200)
+    if tuple(got) != tuple(fresh):
+        return False
+    mh = Measurement.get(c, holder, 200)
+    if (mh.minimum, mh.maximum) != (fresh.minimum + 2, fresh.maximum + 2):
+        return False
+    rendered = [l.rstrip() for l in cat.render_lines(c, t, got.maximum)]
+    return rendered == [l.rstrip() for l in b.splitlines()]
+
+
+# --- Text options: rendering at the measured minimum / maximum never exceeds it (P) -------------------------------------------
+_OPT_TEXTS = ["hello wonderful world", "ab 中中中 cd", "a bb ccc dddd", "supercalifragilistic x"]
+
+
+@symx("C09-text-options-render-at-measure", timeout=900, kind="P", functions=["rich/text.py:Text.__rich_measure__", "rich/text.py:Text.wrap",
+                                                                             "rich/containers.py:Lines.justify", "rich/text.py:Text.truncate"],
+      bounds="%d texts x justify in {default, left, center, right, full} x overflow in {fold, crop, ellipsis} x no_wrap, bare and "
+             "inside Styled / Align.left / a RenderGroup: rendering at the reported minimum, at the reported maximum and at every "
+             "width in between produces no line wider than that width (solver-enumerated, native)" % len(_OPT_TEXTS),
+      outside="overflow='ignore' (asks for over-wide lines)")
+def c09_text_options(e):
+    from rich.align import Align
+    from rich.console import RenderGroup
+    from rich.styled import Styled
+    s = _OPT_TEXTS[int(e.mk("text", 0, len(_OPT_TEXTS) - 1))]
+    justify = [None, "left", "center", "right", "full"][int(e.mk("justify", 0, 4))]
+    overflow = ["fold", "crop", "ellipsis"][int(e.mk("overflow", 0, 2))]
+    no_wrap = bool(e.mkbool("no_wrap"))
+    wrap_in = int(e.mk("holder", 0, 3))
+
+    def mk():
+        t = Text(s, justify=justify, overflow=overflow, no_wrap=no_wrap)
+        return [t, Styled(t, "bold"), Align.left(t), RenderGroup(t)][wrap_in]
+    c = cat.console()
+    m = Measurement.get(c, mk(), 200)
+    if not (0 <= m.minimum <= m.maximum <= 200):
+        return False
+    at = int(e.mk("at", 0, 30))
+    w = m.minimum + at
+    if w > m.maximum or w < 1:
+        return True
+    return all(x <= w for x in cat.widths(cat.render_lines(c, mk(), w)))
